@@ -17,6 +17,11 @@ func judgeC08(rep *lib.Report, c *lib.Ctx, ln *printerLine, res *realResult, kas
 	if res.Panicked || !lib.HasKind(ln.C.Ts, "rstring", "rbytes", "builder") {
 		return
 	}
+	rnd := currentSlice == "rnd"
+	if rnd && (printsAddresses(ln) || formatHasVerb(ln.C.F, 'T')) {
+		return // two runs of the same call differ in the addresses they print; %T and %p are outside the statement
+	}
+	cm := lib.CtxMap(ln.C.Ts)
 	desc := caseString(c, ln.C)
 	// deep copy of the operand terms with placeholder contents
 	raw, _ := json.Marshal(ln.C)
@@ -24,10 +29,13 @@ func judgeC08(rep *lib.Report, c *lib.Ctx, ln *printerLine, res *realResult, kas
 	_ = json.Unmarshal(raw, &ph)
 	contents := map[string][]byte{}
 	byID := map[int]string{}
-	var mark func(ts []*lib.Term)
-	mark = func(ts []*lib.Term) {
+	var mark func(ts []*lib.Term, depth int)
+	mark = func(ts []*lib.Term, depth int) {
 		for _, t := range ts {
-			if t.K == "rstring" || t.K == "rbytes" {
+			if depth > 0 && (t.K == "safe" || t.K == "unsafe") {
+				continue // a wrapper nested in a container is rendered by the standard fmt through its own methods (O2, O9)
+			}
+			if (t.K == "rstring" || t.K == "rbytes") && cm[t.ID] != "unsafe" { // (under Unsafe() a redactable is data like any other)
 				p, seen := byID[t.ID]
 				if !seen {
 					p = fmt.Sprintf("@@%d@@", len(contents))
@@ -53,14 +61,17 @@ func judgeC08(rep *lib.Report, c *lib.Ctx, ln *printerLine, res *realResult, kas
 				}
 				t.ID += 5000
 			}
-			mark(t.Xs)
+			mark(t.Xs, depth+1)
 		}
 	}
 	if lib.HasKind(ln.C.Ts, "builder") && lib.HasKind(ln.C.Ts, "unsafe") {
 		return
 	}
-	mark(ph.Ts)
-	pc := lib.NewCtx(nil)
+	mark(ph.Ts, 0)
+	if len(contents) == 0 {
+		return
+	}
+	pc := lib.NewCtxLike(nil, c.HandleBase) // (object handles are numbers that can show in the output)
 	pr := runCase(pc, ph)
 	pc.Release()
 	rep.AddEval(1)
@@ -70,6 +81,9 @@ func judgeC08(rep *lib.Report, c *lib.Ctx, ln *printerLine, res *realResult, kas
 	vis := lib.DeleteEnvelopes(pr.Out)
 	exp, expRed, expStrip := pr.Out, []byte(redact.RedactableBytes(pr.Out).Redact()), redact.RedactableBytes(pr.Out).StripMarkers()
 	for p, content := range contents {
+		if rnd && !bytes.Contains(pr.Out, []byte(p)) {
+			return // the operand is not printed at all by this format (EXTRA, explicit indexes): no oracle
+		}
 		if bytes.Count(vis, []byte(p)) != bytes.Count(pr.Out, []byte(p)) || !bytes.Contains(pr.Out, []byte(p)) {
 			rep.Violate("compose:placeholder-hidden", fmt.Sprintf("%s: a plain redactable %q was enveloped or altered: %q", desc, p, pr.Out), kase)
 			return
@@ -77,6 +91,11 @@ func judgeC08(rep *lib.Report, c *lib.Ctx, ln *printerLine, res *realResult, kas
 		exp = bytes.ReplaceAll(exp, []byte(p), content)
 		expRed = bytes.ReplaceAll(expRed, []byte(p), []byte(redact.RedactableBytes(content).Redact()))
 		expStrip = bytes.ReplaceAll(expStrip, []byte(p), redact.RedactableBytes(content).StripMarkers())
+	}
+	if rnd && !bytes.Equal(res.Out, exp) && chunksEqual(lib.NormOf(res.Out), lib.NormOf(exp)) {
+		// an unsafe operand printed right after a redactable that ends in an envelope continues that envelope (the
+		// buffer elides the marker pair in between): the same chunks, merged
+		return
 	}
 	if !bytes.Equal(res.Out, exp) {
 		rep.Violate("compose:not-identity", fmt.Sprintf("%s: output %q, the redactables unchanged would give %q", desc, res.Out, exp), kase)
@@ -91,6 +110,34 @@ func judgeC08(rep *lib.Report, c *lib.Ctx, ln *printerLine, res *realResult, kas
 	if !lib.WellFormed(res.Out) || !lib.LineSafe(res.Out) {
 		rep.Violate("compose:not-closed", fmt.Sprintf("%s: output %q is not a line-safe redactable", desc, res.Out), kase)
 	}
+}
+
+func chunksEqual(a, b []lib.Chunk) bool {
+	if len(a) != len(b) {
+		return false
+	}
+	for i := range a {
+		if a[i].Cls != b[i].Cls || !bytes.Equal(a[i].Txt, b[i].Txt) {
+			return false
+		}
+	}
+	return true
+}
+
+func formatHasVerb(f []int, verb int) bool {
+	for i := 0; i < len(f); i++ {
+		if f[i] == '%' {
+			j := i + 1
+			for j < len(f) && !(f[j] >= 'a' && f[j] <= 'z' || f[j] >= 'A' && f[j] <= 'Z' || f[j] == '%') {
+				j++
+			}
+			if j < len(f) && f[j] == verb {
+				return true
+			}
+			i = j
+		}
+	}
+	return false
 }
 
 func validAll(m map[string][]byte) bool {
